@@ -83,6 +83,7 @@ class Effects:
         self.repo = repo
         self.typed = typed
         self.user_callables: List[Tuple[str, ast.Call]] = []
+        self.external_calls: List[Tuple[str, ast.Call, str, str]] = []  # (function, call, import-resolved origin, class)
         self._typed_calls: Set[int] = set()
         self.properties: Dict[str, List[str]] = {}
         self._stored_callable_cache: Dict[Tuple[str, str], List[str]] = {}
@@ -112,6 +113,7 @@ class Effects:
         # does a function return only objects it created?  (optimistic fixpoint)
         for _ in range(5):
             self.user_callables = []
+            self.external_calls = []
             for fs in order:
                 self._analyse(fs)
             new = {fs.qual: self._returns_fresh(fs) for fs in order}
@@ -421,6 +423,40 @@ class Effects:
                     ast.copy_location(fake, n)
                     fs.calls.append(([f"{fs.qual}.{n.id}"], fake, [], {}, None))
 
+    def _external(self, fs: FuncSummary, c: ast.Call, argroots, kwroots) -> Optional[str]:
+        """A call that leaves the package: classify its import-resolved origin (sa/external.py).  Returns the class, or None when
+        the root name is not an import of an external module.  'mutates-args' records writes through the arguments."""
+        from .external import classify, origin_of
+
+        n = c.func
+        while isinstance(n, ast.Attribute):
+            n = n.value
+        if not isinstance(n, ast.Name) or n.id in fs.params:
+            return None
+        local_imports = {}
+        for x in walk_local(fs.node):
+            if isinstance(x, ast.ImportFrom) and x.module:
+                for a in x.names:
+                    local_imports[a.asname or a.name] = f"{x.module}.{a.name}"
+            elif isinstance(x, ast.Import):
+                for a in x.names:
+                    local_imports[a.asname or a.name.split(".")[0]] = a.name if a.asname else a.name.split(".")[0]
+        if n.id in fs.assigned and n.id not in local_imports:
+            return None
+        origin = origin_of(fs.mod.imports, c.func, local_imports)
+        if origin is None:
+            return None
+        kind = classify(origin)
+        if kind == "eyecite":
+            return None
+        if kind == "mutates-args":
+            for rs in list(argroots) + list(kwroots.values()):
+                for r in rs:
+                    if r[0] != "fresh" and not _is_elem(r):
+                        fs.writes.append((r, c, f"{origin}() mutates its argument"))
+        self.external_calls.append((fs.qual, c, origin, kind))
+        return kind
+
     def _call(self, fs: FuncSummary, c: ast.Call):
         fn = dotted(c.func)
         args = list(c.args) + [k.value for k in c.keywords]
@@ -476,6 +512,8 @@ class Effects:
                     if user:
                         self.user_callables.append((fs.qual, c))
                     return
+            if self._external(fs, c, argroots, kwroots) in ("pure", "mutates-args", "ambient", "memo"):
+                return  # ambient reads are judged by R-C15-4 / O9, memoising decorators by the client (fs.memo_decorated)
             fs.unknown_calls.append(c)
             return
         if isinstance(c.func, ast.Attribute):
@@ -485,6 +523,13 @@ class Effects:
             rootname = root.split(".")[0] if root else None
             if rootname and rootname in PURE_EXTERNAL_ROOTS and rootname not in fs.params and rootname not in fs.local_roots:
                 return
+            if rootname and rootname not in fs.local_roots and rootname not in self.repo.classes:
+                kind = self._external(fs, c, argroots, kwroots)
+                if kind in ("pure", "mutates-args", "ambient", "memo"):
+                    return
+                if kind in ("stateful", "unknown"):
+                    fs.unknown_calls.append(c)
+                    return
             if isinstance(recv, ast.Call) and dotted(recv.func) == "super":
                 # super().m(...): resolve in bases
                 cands = [q for q in self.methods.get(meth, [])]
@@ -662,6 +707,8 @@ class Effects:
             v = todo.pop()
             if isinstance(v, ast.IfExp):
                 todo += [v.body, v.orelse]
+            elif isinstance(v, ast.Call) and dotted(v.func) in ("partial", "functools.partial") and v.args:
+                todo.append(v.args[0])  # partial(f, ...) calls f
             elif isinstance(v, ast.Name):
                 if v.id in fs.params or any(r[0] == "param" for r in fs.local_roots.get(v.id, ())):
                     user = True
